@@ -162,6 +162,18 @@ UNITS = {
         'template': 'kmer_sym.vrs', 'backend': 'verus',
         'serves': ['C02'],
     },
+    'sched_rows': {
+        'template': 'sched_rows.vrs', 'backend': 'verus',
+        'serves': ['C05', 'C14'],
+    },
+    'sched_lists': {
+        'template': 'sched_lists.vrs', 'backend': 'verus',
+        'serves': ['C10'],
+    },
+    'sched_count': {
+        'template': 'sched_count.vrs', 'backend': 'verus',
+        'serves': ['C07'],
+    },
     'posmaps_count': {
         'template': 'posmaps_count.vrs', 'backend': 'verus',
         'serves': ['C03'],
@@ -241,7 +253,7 @@ PROPS = {
         'not_reached': ['text rendering of the row (format!("{:.6}"), join) and the file/CLI path: see C05', 'pyo3 argument conversion for the binding'],
     },
     'C14': {
-        'units': ['mmap_rows', 'oligo_vec', 'cov_vec', 'count_route', 'reader_glue'], 'deps': ['kmer_gen', 'posmaps', 'header'], 'replay': 'c14,c08',
+        'units': ['mmap_rows', 'oligo_vec', 'cov_vec', 'count_route', 'reader_glue', 'sched_rows'], 'deps': ['kmer_gen', 'posmaps', 'header'], 'replay': 'c14,c08',
         'level_text': 'Verus proves (a) every get_unchecked / get_unchecked_mut call site of the oligo accumulation loops (3 copies) against exactly the '
                       'safety precondition of the unchecked access, for every byte string and every k <= 15; (b) for the integer layout statements of vectorise_mmap, lifted '
                       'verbatim: per-row size equals the real row length for every delimiter length, the mapping size is header + records x row length (exact tiling), and each '
@@ -292,10 +304,11 @@ PROPS = {
         'not_reached': ['record parsing inside bio (ids, CRLF, wrapping, FASTQ)', 'suffix inference beyond the bounded Kani stand-in', 'summary statistics loop (bio records() again)'],
     },
     'C05': {
-        'units': ['mmap_rows', 'batch_loops', 'reader_glue'], 'deps': [], 'replay': 'c05',
+        'units': ['mmap_rows', 'batch_loops', 'reader_glue', 'sched_rows'], 'deps': [], 'replay': 'c05',
         'level_text': 'Narrow claim: the sequential obligations that make row i belong to record i are proved; schedule independence then rests on assumed contracts of Mutex, rayon::scope and par_iter/collect. '
                       '(1) Sequences::next hands out ordinal n == number of records delivered before (it takes &mut self, so calls are totally ordered); (2) mmap path: the write offset and length of a row are '
-                      'exactly slot record.n of the exact tiling header + records x row length - a function of the record alone, so the file does not depend on write order; (3) batch path: the lifted loop renders every record exactly once in reader order including the final flush.',
+                      'exactly slot record.n of the exact tiling header + records x row length - a function of the record alone, so the file does not depend on write order; (3) batch path: the lifted loop renders every record exactly once in reader order including the final flush; (4) unit sched_rows proves, over sequences of writes, that pairwise disjoint writes give the same file in every order '
+                      '(lemma_rows_schedule_independent) and that with one write per record into its slot, in ANY order, byte x of slot r is byte x of the row of record r and the header is untouched (theorem_rows_any_order).',
         'level_note': 'assumed, not verified: std::sync::Mutex mutual exclusion, rayon::scope joins all tasks, par_iter().map().collect() preserves order, BufWriter/mmap flush; worker interleavings are NOT enumerated '
                       '(Kani has no threads; no Verus model of std Mutex/rayon). FASTA/FASTQ/gzip equivalence is parser behaviour (C06). Header = exactly one first line: the lifted layout fragment (header slot) and the header-write statement.',
         'not_reached': ['worker interleavings (assumed primitives)', 'container equivalence (bio/flate2)', 'closure glue between the lifted fragments'],
@@ -320,22 +333,25 @@ PROPS = {
         'fn_filter': r'^py::',
     },
     'C07': {
-        'units': ['count_route'], 'deps': ['kmer_gen', 'n2k', 'reader_glue'], 'replay': 'c07',
+        'units': ['count_route', 'sched_count'], 'deps': ['kmer_gen', 'n2k', 'reader_glue'], 'replay': 'c07',
         'level_text': 'Narrow claim. Verus proves for the lifted per-record loop of count_chunk, every byte string, k <= 31 and every partition count >= 1: each valid window causes exactly one increment, of its '
                       'canonical code, in partition (code mod n_parts), nothing else in the table changes, and the unchecked partition index is in bounds; hence a k-mer lives in exactly one partition across all chunks. '
-                      'ACGT rendering uses numeric_to_kmer (C02 contract).',
+                      'ACGT rendering uses numeric_to_kmer (C02 contract). Schedule clause (one chunk): units sched_count / count_route prove, as lemmas over sequences of atomic updates, that the table reached '
+                      'depends only on the MULTISET of updates performed (lemma_schedule_independent), that the per-record loop performs exactly the updates ops_of(record) (lemma_counted_is_apply), and hence '
+                      '(theorem_any_schedule) every execution - any thread count, hand-out order or interleaving - that performs the updates the records call for reaches the table a single worker reaches in input order.',
         'level_note': 'assumed, not verified: scc entry().and_modify().or_insert() is an atomic read-modify-write (stub verif_incr; a change to a non-atomic read+insert no longer matches the rewrite and is reported undecided); '
                       'fewer than 2^32 occurrences per k-mer (u32 counters); n_parts >= 1 (init takes max(threads, ..) with threads >= 1; float ceil not modelled). NOT reached: worker interleavings, the limit/EOF race, '
                       'chunk files, merge (text parsing, file deletion), progress bar - concurrency and I/O through scc/rayon/fs.',
         'not_reached': ['worker interleavings and chunk boundaries', 'merge(): parsing chunk files, summing, deleting temporary files', 'init(): partition count from float arithmetic'],
     },
     'C10': {
-        'units': ['min_lines', 'min_callsite'], 'deps': ['minimiser', 'n2k', 'reader_glue'], 'replay': 'c10',
+        'units': ['min_lines', 'min_callsite', 'sched_lists'], 'deps': ['minimiser', 'n2k', 'reader_glue'], 'replay': 'c10',
         'level_text': 'Narrow claim. Verus proves for the per-record bodies of seq_to_min and bin_sequences, lifted verbatim and run against the `next` contract that unit `minimiser` proves for the real '
                       'MinimiserGenerator (C09): for every record, every m in 1..=28 and w = 0 or w > m, (1) the iterator is drained and the ghost trace of what it handed out is the COMPLETE left-to-right list of '
                       'the record\'s maximal runs for the effective window (w = 0: one window spanning the whole record, never narrower than m); (2) the s2m line is the record id, then exactly one entry per run in '
                       'that order, each rendering (text_of(minimiser), start, end), then the newline entry; (3) the m2s table after the record equals the table before with exactly those runs appended, each under '
-                      'its minimiser text with (record id, start, end), and nothing else changed. Both listings are therefore functions of the same run list per record - the inversion relation at record granularity.',
+                      'its minimiser text with (record id, start, end), and nothing else changed. Both listings are therefore functions of the same run list per record - the inversion relation at record granularity. Schedule clause: unit sched_lists proves, over sequences of atomic appends, that the '
+                      'keys of the table and the MULTISET of entries under every key depend only on the multiset of appends performed, not on their order (lemma_lists_schedule_independent).',
         'level_note': 'assumed, not verified: scc entry().and_modify(push).or_insert(vec![item]) is an atomic append (stub verif_upsert; the rewrite pattern demands the same item text in both closures, anything else is '
                       'reported undecided); Mutex-guarded record hand-out and line write, rayon scope join; format!("{}:{}-{}") and {v:?} rendering (uninterpreted fmt_run), join("\\t"), the final scan() that writes the '
                       'table; FASTA/FASTQ parsing (C06). Worker interleavings are NOT enumerated (no thread support in Kani, no Verus model of scc/Mutex); the schedule-independence clause rests on those assumed primitives. '
